@@ -402,10 +402,11 @@ spif_objpair_comp(spif_objpair_t self, spif_obj_t other)
 {
     SPIF_OBJ_COMP_CHECK_NULL(self, other);
     if (SPIF_OBJ_IS_OBJPAIR(other)) {
-        return SPIF_OBJ_COMP(self->key, SPIF_OBJPAIR(other)->key);
-    } else {
-        return SPIF_OBJ_COMP(self->key, other);
+        other = SPIF_OBJPAIR(other)->key;
     }
+    /* Either key may be NULL (spif_objpair_new(), spif_objpair_new_from_value()). */
+    SPIF_OBJ_COMP_CHECK_NULL(self->key, other);
+    return SPIF_OBJ_COMP(self->key, other);
 }
 
 /**
